@@ -14,6 +14,7 @@ func checkC02(r *Run) {
 	ruleA5(r, p)
 	ruleErrorMarshalOnce(r, p)
 	ruleA6(r, p, []string{"internal/json", cborRel})
+	ruleFrontEndConversions(r, p, "A6")
 	ruleJSONSliceAppenders(r, p)
 	ruleElemAgreement(r, p)
 	ruleFloatRendering(r, p)
